@@ -1,3 +1,55 @@
-From V Require Import Base.Bytes.
-Theorem C19_placeholder : True. Proof. exact I. Qed.
-Print Assumptions C19_placeholder.
+(* C19 — formatting is idempotent and meaning-preserving.  Theorems only. *)
+From Coq Require Import List Bool Arith.
+Import ListNotations.
+From V Require Import Base.Bytes Model.Escape Model.Tok Model.Fmt Proofs.FmtP Gen.Sites_C19.
+
+(* 1. attribute values: FormatAttr applied to its own output changes nothing - ALL byte strings *)
+Theorem C19_format_attr_idempotent : forall s, format_attr (format_attr s) = format_attr s.
+Proof. exact format_attr_idempotent. Qed.
+Print Assumptions C19_format_attr_idempotent.
+(* 2. a formatted value between double quotes cannot end the value, whatever it contains, and decoding
+      the two references the formatter writes gives the value back *)
+Theorem C19_attr_value_inert : forall e n a an s av,
+  run (AVdq e n a an av) (escape_attr s) = (AVdq e n a an (av ++ escape_attr s), []).
+Proof. exact escape_attr_inert. Qed.
+Print Assumptions C19_attr_value_inert.
+Theorem C19_attr_value_kept : forall s fuel, length (escape_attr s) <= fuel -> dec_attr fuel (escape_attr s) = s.
+Proof. exact dec_escape_attr. Qed.
+Print Assumptions C19_attr_value_kept.
+(* 3. inline text: normalising normalised text changes nothing - ALL byte strings *)
+Theorem C19_normalize_inline_idempotent : forall s, normalize_inline (normalize_inline s) = normalize_inline s.
+Proof. exact normalize_inline_idempotent. Qed.
+Print Assumptions C19_normalize_inline_idempotent.
+(* 4. text escaping: a closed mustache expression is copied byte for byte and escaping resumes after it;
+      text without a mustache opener has every & < > replaced by its reference and nothing else *)
+Theorem C19_mustache_kept : forall inside rest fuel, no_close (inside ++ [x7d]) = true ->
+  esc_text (S fuel) (x7b :: x7b :: inside ++ x7d :: x7d :: rest) = [x7b; x7b] ++ inside ++ [x7d; x7d] ++ esc_text fuel rest.
+Proof. exact esc_text_mustache. Qed.
+Print Assumptions C19_mustache_kept.
+Theorem C19_plain_text_escaped : forall s, no_open s = true -> forall fuel, length s < fuel ->
+  esc_text fuel s = flat_map esc_t1 s.
+Proof. exact esc_text_plain. Qed.
+Print Assumptions C19_plain_text_escaped.
+(* 5. layout: the whitespace a formatting pass inserts between the children of a block-mode element, and
+      around a block-mode text, does not change the next pass's layout - every tree, every element table *)
+Theorem C19_block_pads_insignificant : forall voids inlines phrasings fuel depth t a kids,
+  keep_inline voids inlines phrasings fuel t kids = false ->
+  fmt_node voids inlines phrasings (S fuel) depth (Elem t a (filter nws kids)) =
+  fmt_node voids inlines phrasings (S fuel) depth (Elem t a kids).
+Proof. exact block_pads_insignificant. Qed.
+Print Assumptions C19_block_pads_insignificant.
+Theorem C19_block_text_trim : forall voids inlines phrasings fuel depth s,
+  fmt_node voids inlines phrasings fuel depth (Text (trimw s)) = fmt_node voids inlines phrasings fuel depth (Text s).
+Proof. exact block_text_trim. Qed.
+Print Assumptions C19_block_text_trim.
+
+(* the layout model on an example with every rule: block, phrasing-inline, inline element, void, padded
+   attribute value with a quote and an ampersand, mustache with a comparison *)
+Example C19_layout_example :
+  format_forest voids inlines phrasings
+    [Elem (bs "div") [(bs "title", bs "  a  ""b"" & c "); (bs "hidden", [])]
+       [Text (bs " "); Elem (bs "p") [] [Text (bs "x <  y "); Elem (bs "b") [] [Text (bs "{{ a < b }}")]; Elem (bs "br") [] []];
+        Text (bs "  tail & co ")]]
+  = bs "<div title=""a &quot;b&quot; &amp; c"" hidden>" ++ [x0a] ++
+    bs "  <p>x &lt; y <b>{{ a < b }}</b><br></p>" ++ [x0a] ++ bs "  tail &amp; co" ++ [x0a] ++ bs "</div>" ++ [x0a].
+Proof. vm_compute. reflexivity. Qed.
